@@ -192,7 +192,11 @@ int main(void)
     VASSERTM(RD.pending_ack == 0 && RD.outgoing_mask == 0 && rd_origin.lifo_head.data.item == (parsec_list_item_t *)&RD,
              "after the last send completes the remote_deps is returned to its freelist");
 
+#if defined(RELAY_STAR_FALLBACK)
+    if (need != pmask && (need & ctl) && (need & ~ctl)) VWITNESS("consumes a control and a data output, not all outputs");
+#else
     if (need != pmask && (need & ctl) && (need & ~ctl) && n_tx > 0) VWITNESS("consumes a control and a data output, not all outputs, and forwards");
+#endif
     if (need == pmask && n_tx == 0) VWITNESS("consumes everything, end of the chain");
     return 0;
 }
